@@ -209,7 +209,11 @@ def handleSolver (j : Json) : R Json := do
         | none => do
           let ra ← rat2 (← field qj "rho_at")
           let raa := absA2 ra
-          pure (mk1 n (modeRhsFunc Q P (get2 ra) c I), mk1 n (modeRhsFunc Qa (get3 Pab) (get2 raa) c I))
+          let noE := ((qj.getObjVal? "no_e").toOption.bind (fun v => v.getBool?.toOption)).getD false
+          if noE then
+            pure (mk1 n (modeRhsFunc (rhoVecNoE Q P (get2 ra)) c I), mk1 n (modeRhsFunc (rhoVecNoE Qa (get3 Pab) (get2 raa)) c I))
+          else
+            pure (mk1 n (modeRhsFunc (rhoVec Q co P (get2 ra)) c I), mk1 n (modeRhsFunc (rhoVec Qa coa (get3 Pab) (get2 raa)) c I))
       let evalres := (List.range nn).map (fun i => evalAt nb V xf i - get1 phia i)
       let res := mk1 n (fun a => matVec n (get2 Marr) x a - get1 b a)
       let rowabs := mk1 n (fun a => matVec n (get2 Maarr) (fun _ => 1) a)
